@@ -38,6 +38,11 @@
 (*     default = [k|->"nodef"] | [k|->"val", v |-> x] | [k|->"fac", v |-> x]*)
 (*     hookspec = [k|->"nohook"] | [k|->"rejectif", f |-> field, c |-> cond]*)
 (*         (a __post_init__ that raises when cond holds on the field)      *)
+(*                | [k|->"rangehook"]  the __post_init__ of the shipped       *)
+(*         pane.types.Range: fields start, end, n, step; exactly one of n /  *)
+(*         step is given and the other one is derived (RangeHook below)      *)
+(*  [k|->"vol", e |-> T]     pane.types.ValueOrList[T]: a T or a list of T;  *)
+(*         typed value [k |-> "vol", one |-> "T"|"F", x |-> the T / the list]*)
 (***************************************************************************)
 EXTENDS PaneVocab
 
@@ -234,8 +239,41 @@ NdShape(v) ==     \* <<-1>> when ragged
 NdFlat(v) == IF v.k # "seq" THEN <<v>>
              ELSE IF v.xs = <<>> THEN <<>> ELSE NdFlat(v.xs[1]) \o NdFlat([v EXCEPT !.xs = Tail(v.xs)])
 
-RECURSIVE Verdict(_, _), Img(_, _), UnionPick(_, _, _), ClsVerdict(_, _), ClsImg(_, _),
+RECURSIVE Verdict(_, _), Img(_, _), UnionPick(_, _, _), ClsVerdict(_, _), ClsImg(_, _), ClsImgRaw(_, _),
           FieldVals(_, _, _)
+
+(* pane.types.ValueOrList[T] reads like Union[T, List[T]] *)
+VolAlts(T) == <<T.e, [k |-> "list", e |-> T.e]>>
+
+(* The shipped Range helper (pane/types.py, pinned by tests/test_types.py): fv = <<start, end, n, step>>  *)
+(* as converted by the field types.  Exactly one of n / step must be given.  From step: a zero step is   *)
+(* refused, n = 1 + ceil(span / step) if span > 0 else 0.  From n: for integer ranges span must be       *)
+(* divisible by n - 1 (n = 1 divides by zero: refused), step = span / (n - 1) if n > 1 else None.        *)
+(* Result [v |-> verdict, fv |-> the field values after the hook].  Non-finite numbers, negative zero,   *)
+(* quotients that are no small rational / no exact float are left open ("D").                            *)
+RangeHook(fv) ==
+  LET s == fv[1]  e == fv[2]  n == fv[3]  st == fv[4]
+      fin(x) == x.k = "int" \/ (x.k = "float" /\ x.sp = "fin")
+      open == [v |-> "D", fv |-> fv]
+      no   == [v |-> "R", fv |-> fv] IN
+  IF ~fin(s) \/ ~fin(e) \/ (st.k # "none" /\ ~fin(st)) \/ n.k \notin {"none", "int"} THEN open
+  ELSE IF (n.k = "none") = (st.k = "none") THEN no
+  ELSE LET span == RSub(NumNum(e).q, NumNum(s).q) IN
+       IF st.k # "none"
+       THEN LET sq == NumNum(st).q IN
+            IF sq[1] = 0 THEN no
+            ELSE LET q == RDiv(span, sq) IN
+                 IF q[2] > 1000 THEN open
+                 ELSE [v |-> "A", fv |-> [fv EXCEPT ![3] = MkInt(IF RLt(Zero, span) THEN 1 + RCeil(q) ELSE 0)]]
+       ELSE LET nn == n.n IN
+            IF s.k # "float"
+            THEN (IF nn = 1 THEN no
+                  ELSE IF nn >= 2 /\ span[1] % (nn - 1) # 0 THEN no      \* (n = 0: Python's span % -1 is 0)
+                  ELSE [v |-> "A", fv |-> [fv EXCEPT ![4] = IF nn > 1 THEN MkInt(span[1] \div (nn - 1)) ELSE MkNone]])
+            ELSE (IF nn <= 1 THEN [v |-> "A", fv |-> fv]
+                  ELSE LET q == RDiv(span, <<nn - 1, 1>>) IN
+                       IF ~IsPow2(q[2]) THEN open
+                       ELSE [v |-> "A", fv |-> [fv EXCEPT ![4] = MkFloat(q)]])
 
 (* left-most member that does not certainly reject: <<index, verdict>>; <<0,"R">> if none *)
 UnionPick(alts, v, i) ==
@@ -301,6 +339,7 @@ Verdict(T, v) ==
          ELSE LET i == TagVariant(T, te.tag) IN
               IF i = 0 THEN "R" ELSE IF i = -1 THEN "D" ELSE Verdict(T.vars[i], te.body)
     [] T.k = "cls" -> ClsVerdict(T, v)
+    [] T.k = "vol" -> UnionPick(VolAlts(T), v, 1)[2]
     [] T.k = "ndarray" ->
          LET flat == NdFlat(v)
              r == KSeq([i \in DOMAIN flat |-> Verdict(T.e, flat[i])]) IN
@@ -320,6 +359,11 @@ FieldVals(C, v, b) ==
 HookRejects(C, vals) ==
   IF C.hook.k = "nohook" THEN "F"
   ELSE LET j == CHOOSE j \in DOMAIN C.fs : C.fs[j].n = C.hook.f IN Holds(C.hook.c, vals[j])
+(* verdict of the class' __post_init__ on the converted field values, and the values it leaves behind *)
+HookVerdict(C, vals) ==
+  IF C.hook.k = "rangehook" THEN RangeHook(vals).v
+  ELSE IF HookRejects(C, vals) = "F" THEN "A" ELSE "R"
+HookVals(C, vals) == IF C.hook.k = "rangehook" THEN RangeHook(vals).fv ELSE vals
 
 ClsVerdict(C, v) ==
   IF IsMapV(v) THEN
@@ -329,18 +373,19 @@ ClsVerdict(C, v) ==
             ELSE LET r == KSeq([i \in DOMAIN v.ps |->
                                   IF i \in b.known THEN Verdict(C.fs[b.idx[i]].t, v.ps[i][2]) ELSE "A"]) IN
                  IF r # "A" THEN r
-                 ELSE IF HookRejects(C, FieldVals(C, v, b)) = "F" THEN "A" ELSE "R"
+                 ELSE HookVerdict(C, FieldVals(C, v, b))
   ELSE IF IsSeqV(v) THEN
        IF "tuple" \notin Range(C.inf) THEN "R"
        ELSE LET pos == PosFields(C) IN
             IF Len(v.xs) < ReqCount(C) \/ Len(v.xs) > Len(pos) THEN "R"
             ELSE LET r == KSeq([i \in DOMAIN v.xs |-> Verdict(pos[i].t, v.xs[i])]) IN
                  IF r # "A" THEN r
-                 ELSE IF HookRejects(C, ClsImg(C, v).fv) = "F" THEN "A" ELSE "R"
+                 ELSE HookVerdict(C, ClsImgRaw(C, v).fv)
   ELSE "R"
 
 (* [fv |-> field values in field order, set |-> names explicitly supplied] *)
-ClsImg(C, v) ==
+ClsImg(C, v) == LET r == ClsImgRaw(C, v) IN [r EXCEPT !.fv = HookVals(C, r.fv)]
+ClsImgRaw(C, v) ==
   IF IsMapV(v)
   THEN LET b == BindMap(C, v) IN
        [fv |-> FieldVals(C, v, b), set |-> {C.fs[j].n : j \in b.bound}]
@@ -387,6 +432,8 @@ Img(T, v) ==
     [] T.k = "tagged" ->
          LET te == TagExtract(T, v) IN Img(T.vars[TagVariant(T, te.tag)], te.body)
     [] T.k = "cls" -> MkInst(T, ClsImg(T, v))
+    [] T.k = "vol" -> LET p == UnionPick(VolAlts(T), v, 1)[1] IN
+                      [k |-> "vol", one |-> IF p = 1 THEN "T" ELSE "F", x |-> Img(VolAlts(T)[p], v)]
     [] T.k = "ndarray" -> LET flat == NdFlat(v) IN
                           [k |-> "ndarray", shape |-> NdShape(v), xs |-> [i \in DOMAIN flat |-> Img(T.e, flat[i])]]
 
@@ -431,6 +478,7 @@ SerOK(T, x, d) ==
     [] T.k = "ndarray" -> x.k = "ndarray" /\ NdShape(d) = x.shape /\ Len(NdFlat(d)) = Len(x.xs)
                           /\ \A i \in DOMAIN x.xs : SerOK(T.e, x.xs[i], NdFlat(d)[i])
     [] T.k = "enum"  -> x.k = "enum" /\ x.e = T.name /\ x.i \in DOMAIN T.vs /\ d = T.vs[x.i]
+    [] T.k = "vol"   -> x.k = "vol" /\ SerOK(VolAlts(T)[IF x.one = "T" THEN 1 ELSE 2], x.x, d)
     [] T.k = "ann"   -> SerOK(T.t, x, d)
     [] T.k = "sub"   -> x.k = "sub" /\ SerOK(T.base, x.x, d)
     [] T.k = "tvar"  ->
@@ -473,6 +521,7 @@ OutEnabled(T) ==
     [] T.k = "struct" -> \A i \in DOMAIN T.fs : OutEnabled(T.fs[i][2])
     [] T.k = "union" -> \A i \in DOMAIN T.alts : OutEnabled(T.alts[i])
     [] T.k = "ann" -> OutEnabled(T.t)
+    [] T.k = "vol" -> OutEnabled(T.e)
     [] T.k = "sub" -> OutEnabled(T.base)
     [] T.k = "tvar" -> \A i \in DOMAIN T.ts : OutEnabled(T.ts[i])
     [] T.k = "tagged" -> \A i \in DOMAIN T.vars : OutEnabled(T.vars[i])
@@ -485,6 +534,24 @@ OutEnabled(T) ==
               /\ (f.ex = "F" /\ T.outf = "struct") => \E j \in DOMAIN f.ins : f.ins[j] = f.out
               /\ (f.ex = "F") => f.init = "T"
 
+(* C06's quantifier: convert() parses the value's OWN serialised form, so T ranges over the types    *)
+(* that read that form: no externally / adjacently tagged union (they wrap the variant) anywhere in T *)
+RECURSIVE ReadsOwnForm(_)
+ReadsOwnForm(T) ==
+  CASE T.k \in ScalarKinds \cup {"lit", "enum", "ndarray"} -> TRUE
+    [] T.k \in SeqKinds -> ReadsOwnForm(T.e)
+    [] T.k = "tuple" -> \A i \in DOMAIN T.es : ReadsOwnForm(T.es[i])
+    [] T.k \in {"dict", "defaultdict", "ordereddict"} -> ReadsOwnForm(T.kt) /\ ReadsOwnForm(T.vt)
+    [] T.k = "counter" -> ReadsOwnForm(T.kt)
+    [] T.k = "struct" -> \A i \in DOMAIN T.fs : ReadsOwnForm(T.fs[i][2])
+    [] T.k = "union" -> \A i \in DOMAIN T.alts : ReadsOwnForm(T.alts[i])
+    [] T.k = "ann" -> ReadsOwnForm(T.t)
+    [] T.k = "vol" -> ReadsOwnForm(T.e)
+    [] T.k = "sub" -> ReadsOwnForm(T.base)
+    [] T.k = "tvar" -> \A i \in DOMAIN T.ts : ReadsOwnForm(T.ts[i])
+    [] T.k = "tagged" -> T.lay = "int" /\ \A i \in DOMAIN T.vars : ReadsOwnForm(T.vars[i])
+    [] T.k = "cls" -> \A i \in DOMAIN T.fs : ReadsOwnForm(T.fs[i].t)
+
 (* <<class name, field name>> of every field excluded from output anywhere inside T *)
 RECURSIVE ExSet(_)
 ExSet(T) ==
@@ -496,6 +563,7 @@ ExSet(T) ==
     [] T.k = "struct" -> UNION {ExSet(T.fs[i][2]) : i \in DOMAIN T.fs}
     [] T.k = "union" -> UNION {ExSet(T.alts[i]) : i \in DOMAIN T.alts}
     [] T.k = "ann" -> ExSet(T.t)
+    [] T.k = "vol" -> ExSet(T.e)
     [] T.k = "sub" -> ExSet(T.base)
     [] T.k = "tvar" -> UNION {ExSet(T.ts[i]) : i \in DOMAIN T.ts}
     [] T.k = "tagged" -> UNION {ExSet(T.vars[i]) : i \in DOMAIN T.vars}
@@ -510,6 +578,7 @@ StripX(x, ES) ==
     [] x.k = "map"  -> [x EXCEPT !.ps = [i \in DOMAIN x.ps |-> <<StripX(x.ps[i][1], ES), StripX(x.ps[i][2], ES)>>]]
     [] x.k = "set"  -> [x EXCEPT !.es = {StripX(y, ES) : y \in x.es}]
     [] x.k = "sub"  -> [x EXCEPT !.x = StripX(x.x, ES)]
+    [] x.k = "vol"  -> [x EXCEPT !.x = StripX(x.x, ES)]
     [] x.k = "inst" -> [x EXCEPT !.fs = [i \in DOMAIN x.fs |->
                                            <<x.fs[i][1], IF <<x.c, x.fs[i][1]>> \in ES THEN MkNone ELSE StripX(x.fs[i][2], ES)>>],
                                  !.set = {}]
@@ -523,6 +592,7 @@ StdVal(x) ==
     [] x.k = "map"  -> x.f # "proxy" /\ \A i \in DOMAIN x.ps : StdVal(x.ps[i][1]) /\ StdVal(x.ps[i][2])
     [] x.k = "set"  -> \A y \in x.es : StdVal(y)
     [] x.k = "sub"  -> StdVal(x.x)
+    [] x.k = "vol"  -> StdVal(x.x)
     [] x.k = "inst" -> \A i \in DOMAIN x.fs : StdVal(x.fs[i][2])
     [] OTHER -> TRUE
 
@@ -553,6 +623,7 @@ DataEqUpToSets(T, d, d2) ==
                                          /\ \E j \in DOMAIN T.fs : T.fs[j][1] = d.ps[i][1].s /\ DataEqUpToSets(T.fs[j][2], d.ps[i][2], d2.ps[i][2])
          [] T.k = "union" -> \E i \in DOMAIN T.alts : DataEqUpToSets(T.alts[i], d, d2)
          [] T.k = "ann" -> DataEqUpToSets(T.t, d, d2)
+         [] T.k = "vol" -> DataEqUpToSets(T.e, d, d2) \/ DataEqUpToSets(VolAlts(T)[2], d, d2)
          [] T.k = "sub" -> DataEqUpToSets(T.base, d, d2)
          [] T.k = "tvar" -> \E i \in DOMAIN T.ts : DataEqUpToSets(T.ts[i], d, d2)
          [] T.k = "tagged" ->
